@@ -98,67 +98,70 @@ def handleEarn : Handler := fun f =>
     let post := if v == 0 then post0 else post1
     let opre := if v == 0 then pre1 else pre0
     let opost := if v == 0 then post1 else post0
+    -- the property predicates are evaluated first and win over a model mismatch: a PREDFAIL is a
+    -- failing input on the implementation, whatever the model says
+    let first := fun (p c : String) => if p != "ok" then p else c
     -- observed account values agree with the model's conversion on every observed state
     let avc := allOk [cmpAv "0" n pre0, cmpAv "1" n pre1, cmpAv "0'" n post0, cmpAv "1'" n post1]
-    if avc != "ok" then avc else
     -- state predicates on every observed post-state
     let sp := allOk [vaultPred "vault0" post0, vaultPred "vault1" post1]
-    if sp != "ok" then sp else
     if kind == "accrue" then
       -- environment step: the model takes the observed growth as its input
+      let mono := fun (tag : String) (p q : VO) =>
+        if q.val < p.val then predfail "C11_accrue_monotone" s!"value-decreased {tag}" else "ok"
       let chk := fun (tag : String) (p q : VO) =>
-        if q.val < p.val then predfail "C11_accrue_monotone" s!"value-decreased {tag}"
-        else
-          match Earn.step (stOf p) (.accrue (q.val - p.val)) with
-          | .ok m => cmpVault tag n m q
-          | _ => mismatch "accrue" "err" "ok"
-      let r := allOk [chk "0" pre0 post0, chk "1" pre1 post1]
-      if r != "ok" then r
-      else if post0.val != pre0.val then predfail "C11_accrue_monotone" "savings-strategy-value-changed"
-      else "ok"
+        match Earn.step (stOf p) (.accrue (q.val - p.val)) with
+        | .ok m => cmpVault tag n m q
+        | _ => mismatch s!"accrue{tag}" "err" "ok"
+      let pred := allOk [sp, mono "0" pre0 post0, mono "1" pre1 post1,
+        (if post0.val != pre0.val then predfail "C11_accrue_monotone" "savings-strategy-value-changed" else "ok")]
+      first pred (allOk [avc, chk "0" pre0 post0, chk "1" pre1 post1])
     else
     let s := stOf pre
     let res := if kind == "dep" then Earn.deposit s a x vaultOk stratOk acctOk
                else Earn.withdraw s a x vaultOk stratOk
     let modelCls := match res with | .ok _ => "ok" | .err => "err" | .panic => "panic"
     if kind != "dep" && kind != "wd" then badInput "kind"
-    else if modelCls != result then mismatch "result" modelCls result
     else if result == "panic" then predfail "C11_no_panic" kind
     else if result != "ok" then
-      (if pre0 == post0 && pre1 == post1 then "ok" else predfail "C11_frame" "failed-op-changed-state")
+      first (allOk [sp, if pre0 == post0 && pre1 == post1 then "ok" else predfail "C11_frame" "failed-op-changed-state"])
+        (allOk [avc, if modelCls != result then mismatch "result" modelCls result else "ok"])
     else
     -- (1) model vs implementation
-    let cmp := match res with
-      | .ok m => allOk [cmpVault "" n m post,
+    let cmp := if modelCls != result then mismatch "result" modelCls result else
+      match res with
+      | .ok m => allOk [avc, cmpVault "" n m post,
                         (if kind == "wd" then expectEq "payout" (toString (m.bal a - s.bal a)) (toString payout) else "ok")]
       | _ => "ok"
-    if cmp != "ok" then cmp else
     -- (2) property predicates on the implementation's own observation
     let balA := pre.bal.getD a 0
     let balA' := post.bal.getD a 0
     let avA := pos0 (pre.av.getD a 0)
     let avA' := pos0 (post.av.getD a 0)
     let stranded := !pre.found && pre.val > 0
-    if !(opre == opost) then predfail "C11_frame" "other-vault-changed"
-    else if !(others n a pre.sh post.sh) then predfail "C11_frame" "other-account-shares-changed"
-    else if !(others n a pre.bal post.bal) then predfail "C11_frame" "other-account-balance-changed"
-    else if post.loose != pre.loose then predfail "C11_frame" "module-account-balance-changed"
-    else if kind == "wd" then
-      if balA' - balA != payout then predfail "C11_withdraw_le_value" "payout-ne-balance-change"
-      else if payout > avA then predfail "C11_withdraw_le_value" "above-account-value"
-      else if payout > x then predfail "C11_withdraw_le_value" "above-request"
-      else if payout < 0 then predfail "C11_withdraw_le_value" "negative-payout"
-      else if post.val != pre.val - payout then predfail "C11_strategy_exact" "withdraw"
-      else if post.sh.getD a 0 > pre.sh.getD a 0 then predfail "C11_frame" "withdraw-raised-shares"
-      else "ok"
-    else
-      if balA' != balA - x then predfail "C11_deposit_exact" "balance"
-      else if post.val != pre.val + x then predfail "C11_strategy_exact" "deposit"
-      else if avA' > avA + x then
-        predfail "C11_deposit_withdraw_no_profit" (if stranded then "stranded-value-captured" else "value-gain")
-      else if probe > avA + x then
-        predfail "C11_deposit_withdraw_no_profit" (if stranded then "stranded-value-captured probe" else "value-gain probe")
-      else "ok"
+    let pred :=
+      if sp != "ok" then sp
+      else if !(opre == opost) then predfail "C11_frame" "other-vault-changed"
+      else if !(others n a pre.sh post.sh) then predfail "C11_frame" "other-account-shares-changed"
+      else if !(others n a pre.bal post.bal) then predfail "C11_frame" "other-account-balance-changed"
+      else if post.loose != pre.loose then predfail "C11_frame" "module-account-balance-changed"
+      else if kind == "wd" then
+        if balA' - balA != payout then predfail "C11_withdraw_le_value" "payout-ne-balance-change"
+        else if payout > avA then predfail "C11_withdraw_le_value" "above-account-value"
+        else if payout > x then predfail "C11_withdraw_le_value" "above-request"
+        else if payout < 0 then predfail "C11_withdraw_le_value" "negative-payout"
+        else if post.val != pre.val - payout then predfail "C11_strategy_exact" "withdraw"
+        else if post.sh.getD a 0 > pre.sh.getD a 0 then predfail "C11_frame" "withdraw-raised-shares"
+        else "ok"
+      else
+        if balA' != balA - x then predfail "C11_deposit_exact" "balance"
+        else if post.val != pre.val + x then predfail "C11_strategy_exact" "deposit"
+        else if avA' > avA + x then
+          predfail "C11_deposit_withdraw_no_profit" (if stranded then "stranded-value-captured" else "value-gain")
+        else if probe > avA + x then
+          predfail "C11_deposit_withdraw_no_profit" (if stranded then "stranded-value-captured probe" else "value-gain probe")
+        else "ok"
+    first pred cmp
   | _, _, _, _, _, _, _, _, _, _, _, _ => badInput "parse"
 
 /-! ## savings -/
@@ -226,38 +229,40 @@ def handleSav : Handler := fun f =>
     let res := if kind == "dep" then Savings.deposit (fun d => sup.getD d false) s a cs
                else Savings.withdraw (idxs nD) s a cs
     let modelCls := match res with | .ok _ => "ok" | .err => "err" | .panic => "panic"
+    let first := fun (p c : String) => if p != "ok" then p else c
+    let clsCmp := if modelCls != result then mismatch "result" modelCls result else "ok"
     if kind != "dep" && kind != "wd" then badInput "kind"
-    else if modelCls != result then mismatch "result" modelCls result
     else if result == "panic" then predfail "C11_no_panic" s!"savings-{kind}"
     else if result != "ok" then
-      (if pre == post then "ok" else predfail "C11_savings_frame" "failed-op-changed-state")
+      first (if pre == post then "ok" else predfail "C11_savings_frame" "failed-op-changed-state") clsCmp
     else
-    let cmp := match res with | .ok m => cmpSav m post | _ => "ok"
-    if cmp != "ok" then cmp else
-    let sp := savPred post
-    if sp != "ok" then sp else
-    if !(rowsSame a pre.dep post.dep) then predfail "C11_savings_frame" "other-deposit-changed"
-    else if !(rowsSame a pre.bal post.bal) then predfail "C11_savings_frame" "other-balance-changed"
-    else if (idxs pre.has.length).any (fun b => b != a && pre.has.getD b false != post.has.getD b false) then
-      predfail "C11_savings_frame" "other-record-changed"
-    else
-      -- per denom: what the account received / paid equals what the record and the module moved
-      let bad := (idxs nD).find? fun d =>
-        let req : Option Int := cs.lookup d
-        let dBal := at2 post.bal a d - at2 pre.bal a d
-        let dDep := at2 post.dep a d - at2 pre.dep a d
-        let dMod := post.mod.getD d 0 - pre.mod.getD d 0
-        if kind == "wd" then
-          let want : Int := match req with
-            | some r => if r > at2 pre.dep a d then at2 pre.dep a d else r
-            | none => 0
-          !(dBal == want && dDep == -want && dMod == -want)
-        else
-          let want : Int := req.getD 0
-          !(dBal == -want && dDep == want && dMod == want)
-      match bad with
-      | some d => predfail (if kind == "wd" then "C11_savings_withdraw_exact" else "C11_savings_deposit_exact") s!"denom{d}"
-      | none => "ok"
+    let cmp := if clsCmp != "ok" then clsCmp else match res with | .ok m => cmpSav m post | _ => "ok"
+    let pred :=
+      let sp := savPred post
+      if sp != "ok" then sp
+      else if !(rowsSame a pre.dep post.dep) then predfail "C11_savings_frame" "other-deposit-changed"
+      else if !(rowsSame a pre.bal post.bal) then predfail "C11_savings_frame" "other-balance-changed"
+      else if (idxs pre.has.length).any (fun b => b != a && pre.has.getD b false != post.has.getD b false) then
+        predfail "C11_savings_frame" "other-record-changed"
+      else
+        -- per denom: what the account received / paid equals what the record and the module moved
+        let bad := (idxs nD).find? fun d =>
+          let req : Option Int := cs.lookup d
+          let dBal := at2 post.bal a d - at2 pre.bal a d
+          let dDep := at2 post.dep a d - at2 pre.dep a d
+          let dMod := post.mod.getD d 0 - pre.mod.getD d 0
+          if kind == "wd" then
+            let want : Int := match req with
+              | some r => if r > at2 pre.dep a d then at2 pre.dep a d else r
+              | none => 0
+            !(dBal == want && dDep == -want && dMod == -want)
+          else
+            let want : Int := req.getD 0
+            !(dBal == -want && dDep == want && dMod == want)
+        match bad with
+        | some d => predfail (if kind == "wd" then "C11_savings_withdraw_exact" else "C11_savings_deposit_exact") s!"denom{d}"
+        | none => "ok"
+    first pred cmp
   | _, _, _, _, _ => badInput "parse"
 
 def handleSavState : Handler := fun f =>
